@@ -1,6 +1,7 @@
 package main
 
 import (
+	"sync"
 	"context"
 	"encoding/json"
 	"fmt"
@@ -53,54 +54,110 @@ type schedVector struct {
 }
 
 func checkC16(spec *PropSpec, repo, tier string, seed int, workers int) int {
-	// scenario 1: R plain commands; scenario 2 (R = -1): a connection that
-	// enters the discard-until-Sync state before its simple query
+	// scenario 1: R plain commands; scenarios 2 and 3 (R = -2, -3): a client that
+	// goes silent in the middle of an ordinary / an oversized message; scenario 4
+	// (R = -1): a connection that enters the discard-until-Sync state before its
+	// simple query
 	R := 1
 	if tier == "thorough" {
 		R = 2
 	}
-	rc1 := checkC16Scenario(spec, repo, tier, seed, workers, R, "")
-	if rc1 != 0 {
-		return rc1
+	scenarios := []struct {
+		R      int
+		suffix string
+		key    string
+	}{{R, "", "scenario_plain_commands"}, {-2, "-stalled", "scenario_stalled_client"},
+		{-3, "-stalled-oversized", "scenario_stalled_client_oversized_message"},
+		{-4, "-extended-cycle", "scenario_extended_query_cycle"}, {-1, "-discarding", "scenario_discarding"}}
+	// the scenarios are independent (and z3 is single-threaded): run them side by side
+	rcs := make([]int, len(scenarios))
+	var wgS sync.WaitGroup
+	for i, sc := range scenarios {
+		wgS.Add(1)
+		go func(i int, R int, suffix string) {
+			defer wgS.Done()
+			rcs[i] = checkC16Scenario(spec, repo, tier, seed, workers, R, suffix)
+		}(i, sc.R, sc.suffix)
 	}
-	first, _ := os.ReadFile(filepath.Join(evidenceDir(), "C16.json"))
-	rc2 := checkC16Scenario(spec, repo, tier, seed, workers, -1, "-discarding")
-	// merge the two evidence files (the second run rewrote the file)
-	var a, b map[string]interface{}
-	if json.Unmarshal(first, &a) == nil {
-		second, _ := os.ReadFile(filepath.Join(evidenceDir(), "C16.json"))
-		if json.Unmarshal(second, &b) == nil {
-			ca, _ := a["coverage"].(map[string]interface{})
-			cb, _ := b["coverage"].(map[string]interface{})
-			if ca != nil && cb != nil {
-				for _, k := range []string{"states", "transitions", "traces_validated_against_impl", "obligations", "discharged"} {
-					x, _ := ca[k].(float64)
-					y, _ := cb[k].(float64)
-					cb[k] = int(x + y)
-				}
-				sa, _ := ca["samples"].([]interface{})
-				sb, _ := cb["samples"].([]interface{})
-				cb["samples"] = append(sa, sb...)
-				cb["scenario_plain_commands"] = ca["bmc"]
-				ia, _ := ca["inconclusive"].([]interface{})
-				ib, _ := cb["inconclusive"].([]interface{})
-				cb["inconclusive"] = append(ia, ib...)
-				cb["exhaustive"] = len(ia)+len(ib) == 0
-				wa, _ := a["wall_s"].(float64)
-				wb, _ := b["wall_s"].(float64)
-				b["wall_s"] = wa + wb
-				data, _ := json.MarshalIndent(b, "", " ")
-				os.WriteFile(filepath.Join(evidenceDir(), "C16.json"), data, 0o644)
-			}
+	wgS.Wait()
+	final := filepath.Join(evidenceDir(), "C16.json")
+	parts := func(suffix string) string { return filepath.Join(evidenceDir(), "C16"+suffix+".json.part") }
+	defer func() {
+		for _, sc := range scenarios {
+			os.Remove(parts(sc.suffix))
+		}
+	}()
+	for i, sc := range scenarios {
+		if rcs[i] != 0 {
+			// the evidence of the (first) scenario that found a violation is the evidence
+			data, _ := os.ReadFile(parts(sc.suffix))
+			os.WriteFile(final, data, 0o644)
+			return rcs[i]
 		}
 	}
-	return rc2
+	var acc map[string]interface{}
+	for _, sc := range scenarios {
+		data, _ := os.ReadFile(parts(sc.suffix))
+		var cur map[string]interface{}
+		if json.Unmarshal(data, &cur) != nil {
+			continue
+		}
+		cc, _ := cur["coverage"].(map[string]interface{})
+		if cc != nil {
+			cc[sc.key] = cc["bmc"]
+		}
+		if acc == nil {
+			acc = cur
+			continue
+		}
+		ca, _ := acc["coverage"].(map[string]interface{})
+		if ca != nil && cc != nil {
+			for _, k := range []string{"states", "transitions", "traces_validated_against_impl", "obligations", "discharged"} {
+				x, _ := ca[k].(float64)
+				if xi, ok := ca[k].(int); ok {
+					x = float64(xi)
+				}
+				y, _ := cc[k].(float64)
+				ca[k] = int(x + y)
+			}
+			sa, _ := ca["samples"].([]interface{})
+			sb, _ := cc["samples"].([]interface{})
+			ca["samples"] = append(sa, sb...)
+			ia, _ := ca["inconclusive"].([]interface{})
+			ib, _ := cc["inconclusive"].([]interface{})
+			ca["inconclusive"] = append(ia, ib...)
+			ca["exhaustive"] = len(ia)+len(ib) == 0
+			ca[sc.key] = cc["bmc"]
+			ca["bmc"] = cc["bmc"]
+			// functions encoded: union
+			fa, _ := ca["functions_encoded"].([]interface{})
+			fb, _ := cc["functions_encoded"].([]interface{})
+			seen := map[string]bool{}
+			var fu []interface{}
+			for _, f := range append(fa, fb...) {
+				key := fmt.Sprint(f)
+				if !seen[key] {
+					seen[key] = true
+					fu = append(fu, f)
+				}
+			}
+			ca["functions_encoded"] = fu
+		}
+		wa, _ := acc["wall_s"].(float64)
+		wb, _ := cur["wall_s"].(float64)
+		acc["wall_s"] = wa + wb
+	}
+	if acc != nil {
+		data, _ := json.MarshalIndent(acc, "", " ")
+		os.WriteFile(final, data, 0o644)
+	}
+	return 0
 }
 
 func checkC16Scenario(spec *PropSpec, repo, tier string, seed int, workers int, R int, suffix string) int {
 	id := "C16"
 	t0 := time.Now()
-	evPath := filepath.Join(evidenceDir(), id+".json")
+	evPath := filepath.Join(evidenceDir(), id+suffix+".json.part")
 	os.MkdirAll(filepath.Join(evidenceDir(), "replay"), 0o755)
 	ev := map[string]interface{}{"property_id": id, "tier": tier, "seed": seed, "level": spec.Level}
 	var inconclusive, violations []string
@@ -167,7 +224,7 @@ func checkC16Scenario(spec *PropSpec, repo, tier string, seed int, workers int, 
 			}
 		}
 		specPath := filepath.Join(scratch, "spec.json")
-		data, _ := json.Marshal(map[string]any{"threads": low, "timeout_ms": 900000})
+		data, _ := json.Marshal(map[string]any{"threads": low, "timeout_ms": 900000, "need_handler": R != -2 && R != -3})
 		os.WriteFile(specPath, data, 0o644)
 		ctx, cancel := context.WithTimeout(context.Background(), 40*time.Minute)
 		defer cancel()
